@@ -192,7 +192,9 @@ def scenarios(tier):
     for tps in ((2,) if tier == "quick" else (2, 4)):
         z = dict(cpu=0.0, scaling="const", mem=0.25, read=0)
         c = lambda k: dict(cpu=dur(k, tps), scaling="const", mem=0.25, read=0)
-        for name, ops in (("z-first", [[c(1)], [z, c(2)], [c(1)]]), ("z-middle", [[c(1)], [c(1), z, c(1)], [c(1)]]), ("two-seg", [[c(1), c(1)], [c(1), c(1)]])):
+        for name, ops in (("z-first", [[c(1)], [z, c(2)], [c(1)]]), ("z-middle", [[c(1)], [c(1), z, c(1)], [c(1)]]), ("two-seg", [[c(1), c(1)], [c(1), c(1)]]),
+                          # a last segment of exactly one tick behind a longer one: the operator ends after it, not before
+                          ("two-one", [[c(2), c(1)], [c(1)]]), ("one-two-one", [[c(1)], [c(2), c(1)], [c(1)]]), ("three-one-z", [[c(3), c(1), z], [c(2)]])):
             for alloc in (4, 25):
                 pipes = [dict(prio="B", arrival=0, alloc=alloc, cpu=1, parents=[[i - 1] if i else [] for i in range(len(ops))], ops=ops)]
                 out.append(dict(name=f"F2-segs-{name}-tps{tps}-a{alloc}", tps=tps, pools=1, cpus=3, ram=128, overcommit=False, multi=True,
